@@ -1,7 +1,7 @@
 """Manifest metadata (tools/gen_manifest.py turns it into MANIFEST.json)."""
 HOOK_COMMITS = []
 ENGINES = [
-    dict(name='verus-extract', path='/verif/vlib', serves_properties=['C04', 'C05', 'C06'],
+    dict(name='verus-extract', path='/verif/vlib', serves_properties=['C04', 'C05', 'C06', 'C14'],
          kind_free_text='Verus 0.2026.09.13 on functions extracted mechanically from /repo on every run, contracts injected from /verif/units/<unit>/unit.rs'),
     dict(name='kani-contracts', path='/verif/kani', serves_properties=['C01', 'C02', 'C06'],
          kind_free_text='Kani 0.68 function contracts (proof_for_contract) and loop-free full-domain harnesses on the real crates of /repo (path dependencies), CBMC 6.11'),
@@ -13,6 +13,12 @@ NOT_APPLICABLE = {
     'C13': 'bus state is BTreeMap+VecDeque behind Rc<RefCell> driven by std iterator closures: no Verus model, Kani measured >10 min for 2 outputs x 2 ops (DESIGN.md §7)',
 }
 CHECKS = {
+    'C14': dict(
+        engine='verus-extract', category='proof',
+        technique='Verus: Buffered::next/next_frames verified against the callee CONTRACT of ring_buffer::Bounded and the Signal trait contract; loop invariants with a ghost chain of source states',
+        text='Buffered::next is verified to yield the oldest buffered frame without touching the source when the ring buffer is non-empty, and otherwise to pull exactly capacity source frames in order, yield the first and keep the rest; next_frames refills if and only if empty and its iterator pops that very buffer; is_exhausted <=> buffer empty and source exhausted. The precondition is only the ring buffer representation invariant, so every capacity, pre-fill and start offset is covered; the outer loop is proved to terminate.',
+        note='Assumed: Bounded push/pop/len/max_len contracts (verified in unit ring_buffer, C06), Signal trait contract of the source, T3.',
+    ),
     'C01': dict(
         engine='kani-contracts', category='proof',
         technique='Kani function contracts (requires/ensures on wrappers of the real conv functions) proved by proof_for_contract over the full symbolic domain; spec-function lemmas',
